@@ -26,6 +26,11 @@ CHECKS = {
          "Every corpus geometry (shape universe in 4 layouts + collections) in WKB, WKB-NaN and EWKB, both byte orders, six SRIDs and a special-float sweep is marshalled and compared byte for byte with an independent encoder, decoded and compared with the model (carve-outs computed), through Marshal/Unmarshal, Read/Write, hex and all SQL wrappers (incl. wrong-type and non-[]byte errors). Read is then driven over a fault-injecting reader on enc(g1)||enc(g2): every answer sequence with <=1 (quick) / <=2 (thorough) non-default answers and every chunk composition of encodings <=22 bytes; Write over a fault-injecting writer with a fault at every Write call. Each schedule must yield g1, g2, error and exact stream positions / a prefix of the reference bytes and the injected error.",
          "Bounded: corpus shapes, <=2 reader deviations, 1 writer fault. Children SRID 0; (0,nil) reads excluded. Element limits set to 65536 during the stream phases (corpus counts <=3).",
          "DESIGN.md section 2, C03"),
+ "C04": ("model_checking",
+         "deviation-bounded DFS over the decision points of a reference WKB/EWKB reader model; every model trace (byte string + verdict) replayed against the real decoders (conformance), with allocation measured around forged counts",
+         "A Go reference model of the WKB/EWKB reader generates, by exhaustive choice-sequence search with <=3/<=4 non-default field choices and <=14 fields, every byte string of its alphabet together with the verdict OK(geometry) / TooLarge{level,n,limit} / Error, for three decoder modes and 8/27 limit configurations; each string is decoded by Unmarshal, hex Decode and Scan and must conform (equal geometry, well-formed, canonical re-encode; exact ErrGeometryTooLarge fields; some error). Forged counts are tried in ascending magnitude with the heap-allocation delta bounded. A role-blind sweep (all prefixes, byte and 4-byte-word substitutions of every corpus encoding) checks totality/well-formedness/canonical re-encode, and a nesting-depth family runs in a sacrificial subprocess.",
+         "Bounded: <=4 deviations, <=14 fields, alphabets as listed; noise inside coordinate blocks not explored. Known finding: unbounded recursion depth (stack overflow) on deeply nested collections.",
+         "DESIGN.md section 2, C04"),
  "C08": ("model_checking",
          "explicit-state BFS over Extend histories on real Bounds values plus exhaustive enumeration of geometries and box pairs against a per-dimension reference fold",
          "Bounds() of every geometry of the shape universe and of every collection of <=3 members (mixed layouts, empty members, nested collections) is compared per semantic dimension (X,Y,Z,M located via ZIndex/MIndex) with a reference fold, together with IsEmpty, Bounds.Polygon and the GeoJSON bbox; all Extend histories up to depth 4/5 from five start layouts over a 12-geometry alphabet are executed on real Bounds values, each reached state compared with the fold over its multiset and with every other order reaching that multiset; Overlaps/OverlapsPoint are compared with closed-interval arithmetic on all pairs of small boxes incl. empty ones.",
